@@ -24,14 +24,14 @@ From OV Require Proofs.SrcEqNewtonC.
    of the restored coordinates (all columns), the rounding floor of the difference quotient for any function, the total error
    (truncation + floor + drift) and the optimal-step trade-off.
    (4) drift and rounding floor AT BINARY64 ITSELF (primitive floats through Flocq's specification), any closure, "whenever finite".
-   Still not proved: the complex variants at binary64 itself (only the standard model); that the closure's own
+   Still not proved: the complex rounding floor at binary64 itself (standard model only: jacobian_rounding_floor_C); that the closure's own
    evaluation error eps is small is the user's obligation (it is a hypothesis everywhere). *)
 From Coq Require Import Reals Lra Lia ZArith.
 From Coq Require Floats.
 From Flocq Require Core.Core.
 From OV Require Base.RoundModel Inst.FloatInst Model.Complex Proofs.ComplexRound Proofs.RoundFlx
   Proofs.JacExactGen Proofs.JacExactFloat Proofs.JacExactFloatC Proofs.JacExactRound Proofs.JacExactRoundEx Proofs.JacExactRoundC
-  Proofs.JacExactFloatRound.
+  Proofs.JacExactFloatRound Proofs.JacExactFloatRoundC.
 Local Close Scope R_scope.
 Local Open Scope nat_scope.
 
@@ -851,3 +851,55 @@ Check jacobian_drift_lipschitz_float : forall (F : list PrimFloat.float -> res (
 Print Assumptions jacobian_drift_lipschitz_float.
 (* non-vacuity: jacobian_call_points_drift_float_nonvacuous (the run, finite final state) and jacobian_drift_lipschitz_nonvacuous
    (a function with Lipschitz constants 3, 2) *)
+
+(* Matrix::<Cmplx>::jacobian_cmplx at binary64, any closure, finite final state: the IMAGINARY parts keep their value at every call and
+   at the end ((y + 0) - 0 is exact in IEEE arithmetic; only the sign of a zero can change), the REAL parts drift as in Mat64::jacobian *)
+Theorem jacobian_call_points_drift_C_float : forall (F : list (Complex.cplx FloatInst.AF) -> res (list (Complex.cplx FloatInst.AF))) (x : list (Complex.cplx FloatInst.AF)) (d : PrimFloat.float)
+    (st : list (Complex.cplx FloatInst.AF)) (J : matrix (NA (NCplx FloatInst.SAF))) (evs : list (list (Complex.cplx FloatInst.AF))),
+  jacobian_tr (NCplx FloatInst.SAF) F x (emb (NCplx FloatInst.SAF) d) = Ok (st, J, evs) ->
+  (forall k, (k < length x)%nat ->
+     ComplexRound.ffinite (Complex.re (nth k st (@zero (Complex.CArith FloatInst.SAF)))) /\ ComplexRound.ffinite (Complex.im (nth k st (@zero (Complex.CArith FloatInst.SAF))))) ->
+  evs = x :: map (JacExactGen.call_pt (NCplx FloatInst.SAF) x (emb (NCplx FloatInst.SAF) d)) (seq 0 (length x)) /\ length st = length x /\
+  (forall k, (k < length x)%nat ->
+     ComplexRound.ffinite (Complex.re (nth k x (@zero (Complex.CArith FloatInst.SAF)))) /\ ComplexRound.ffinite (Complex.im (nth k x (@zero (Complex.CArith FloatInst.SAF))))) /\
+  (forall j k, (j < length x)%nat -> (k < length x)%nat ->
+     ComplexRound.FR (Complex.im (nth k (JacExactGen.call_pt (NCplx FloatInst.SAF) x (emb (NCplx FloatInst.SAF) d) j) (@zero (Complex.CArith FloatInst.SAF)))) = ComplexRound.FR (Complex.im (nth k x (@zero (Complex.CArith FloatInst.SAF)))) /\
+     (Rabs (ComplexRound.FR (Complex.re (nth k (JacExactGen.call_pt (NCplx FloatInst.SAF) x (emb (NCplx FloatInst.SAF) d) j) (@zero (Complex.CArith FloatInst.SAF)))) -
+            (if (k =? j)%nat then ComplexRound.FR (Complex.re (nth j x (@zero (Complex.CArith FloatInst.SAF)))) + ComplexRound.FR d
+             else ComplexRound.FR (Complex.re (nth k x (@zero (Complex.CArith FloatInst.SAF)))))) <=
+       (if (k =? j)%nat then ComplexRound.u64 * Rabs (ComplexRound.FR (Complex.re (nth k x (@zero (Complex.CArith FloatInst.SAF)))) + ComplexRound.FR d)
+        else if (k <? j)%nat
+             then (2 * ComplexRound.u64 + ComplexRound.u64 * ComplexRound.u64) * (Rabs (ComplexRound.FR (Complex.re (nth k x (@zero (Complex.CArith FloatInst.SAF))))) + Rabs (ComplexRound.FR d)) else 0))%R) /\
+  (forall k, (k < length x)%nat ->
+     ComplexRound.FR (Complex.im (nth k st (@zero (Complex.CArith FloatInst.SAF)))) = ComplexRound.FR (Complex.im (nth k x (@zero (Complex.CArith FloatInst.SAF)))) /\
+     (Rabs (ComplexRound.FR (Complex.re (nth k st (@zero (Complex.CArith FloatInst.SAF)))) - ComplexRound.FR (Complex.re (nth k x (@zero (Complex.CArith FloatInst.SAF))))) <=
+       (2 * ComplexRound.u64 + ComplexRound.u64 * ComplexRound.u64) * (Rabs (ComplexRound.FR (Complex.re (nth k x (@zero (Complex.CArith FloatInst.SAF))))) + Rabs (ComplexRound.FR d)))%R).
+Proof. exact JacExactFloatRoundC.jacobian_call_points_drift_C_float_lemma. Qed.
+Check jacobian_call_points_drift_C_float : forall (F : list (Complex.cplx FloatInst.AF) -> res (list (Complex.cplx FloatInst.AF))) (x : list (Complex.cplx FloatInst.AF)) (d : PrimFloat.float)
+    (st : list (Complex.cplx FloatInst.AF)) (J : matrix (NA (NCplx FloatInst.SAF))) (evs : list (list (Complex.cplx FloatInst.AF))),
+  jacobian_tr (NCplx FloatInst.SAF) F x (emb (NCplx FloatInst.SAF) d) = Ok (st, J, evs) ->
+  (forall k, (k < length x)%nat ->
+     ComplexRound.ffinite (Complex.re (nth k st (@zero (Complex.CArith FloatInst.SAF)))) /\ ComplexRound.ffinite (Complex.im (nth k st (@zero (Complex.CArith FloatInst.SAF))))) ->
+  evs = x :: map (JacExactGen.call_pt (NCplx FloatInst.SAF) x (emb (NCplx FloatInst.SAF) d)) (seq 0 (length x)) /\ length st = length x /\
+  (forall k, (k < length x)%nat ->
+     ComplexRound.ffinite (Complex.re (nth k x (@zero (Complex.CArith FloatInst.SAF)))) /\ ComplexRound.ffinite (Complex.im (nth k x (@zero (Complex.CArith FloatInst.SAF))))) /\
+  (forall j k, (j < length x)%nat -> (k < length x)%nat ->
+     ComplexRound.FR (Complex.im (nth k (JacExactGen.call_pt (NCplx FloatInst.SAF) x (emb (NCplx FloatInst.SAF) d) j) (@zero (Complex.CArith FloatInst.SAF)))) = ComplexRound.FR (Complex.im (nth k x (@zero (Complex.CArith FloatInst.SAF)))) /\
+     (Rabs (ComplexRound.FR (Complex.re (nth k (JacExactGen.call_pt (NCplx FloatInst.SAF) x (emb (NCplx FloatInst.SAF) d) j) (@zero (Complex.CArith FloatInst.SAF)))) -
+            (if (k =? j)%nat then ComplexRound.FR (Complex.re (nth j x (@zero (Complex.CArith FloatInst.SAF)))) + ComplexRound.FR d
+             else ComplexRound.FR (Complex.re (nth k x (@zero (Complex.CArith FloatInst.SAF)))))) <=
+       (if (k =? j)%nat then ComplexRound.u64 * Rabs (ComplexRound.FR (Complex.re (nth k x (@zero (Complex.CArith FloatInst.SAF)))) + ComplexRound.FR d)
+        else if (k <? j)%nat
+             then (2 * ComplexRound.u64 + ComplexRound.u64 * ComplexRound.u64) * (Rabs (ComplexRound.FR (Complex.re (nth k x (@zero (Complex.CArith FloatInst.SAF))))) + Rabs (ComplexRound.FR d)) else 0))%R) /\
+  (forall k, (k < length x)%nat ->
+     ComplexRound.FR (Complex.im (nth k st (@zero (Complex.CArith FloatInst.SAF)))) = ComplexRound.FR (Complex.im (nth k x (@zero (Complex.CArith FloatInst.SAF)))) /\
+     (Rabs (ComplexRound.FR (Complex.re (nth k st (@zero (Complex.CArith FloatInst.SAF)))) - ComplexRound.FR (Complex.re (nth k x (@zero (Complex.CArith FloatInst.SAF))))) <=
+       (2 * ComplexRound.u64 + ComplexRound.u64 * ComplexRound.u64) * (Rabs (ComplexRound.FR (Complex.re (nth k x (@zero (Complex.CArith FloatInst.SAF))))) + Rabs (ComplexRound.FR d)))%R).
+Print Assumptions jacobian_call_points_drift_C_float.
+Example jacobian_call_points_drift_C_float_nonvacuous :
+  exists st J evs,
+    jacobian_tr (NCplx FloatInst.SAF) (fun p => Ok (aff (NCplx FloatInst.SAF) JacExactFloatC.exc_M JacExactFloatC.exc_c p)) JacExactFloatC.exc_x2
+                (emb (NCplx FloatInst.SAF) JacExactFloat.exj_d2) = Ok (st, J, evs) /\
+    forall k, (k < length JacExactFloatC.exc_x2)%nat ->
+      ComplexRound.ffinite (Complex.re (nth k st (@zero (Complex.CArith FloatInst.SAF)))) /\ ComplexRound.ffinite (Complex.im (nth k st (@zero (Complex.CArith FloatInst.SAF)))).
+Proof. exact JacExactFloatRoundC.excf_conditions. Qed.
